@@ -150,6 +150,12 @@ func genHistory(e *Env, i, length int) []histStep {
 		hs = append(hs, histStep{Op: "switch", Var: v}, histStep{Op: "gen"})
 	}
 	hs = append(hs, histStep{Op: "switch", Var: tl[len(tl)-1]}, histStep{Op: "gen"}, histStep{Op: "gen"}, histStep{Op: "diff"})
+	if i%2 == 1 {
+		// ... every other history goes on with gen / gen / diff under one -tags list (spelled with
+		// spaces, commas, both) and then returns to the plain form
+		tg := []string{"extratag othertag", "extratag,othertag", "extratag, othertag", " extratag  othertag ", "extratag"}[(i/2)%5]
+		hs = append(hs, histStep{Op: "taggen", Arg: tg}, histStep{Op: "tagdiff", Arg: tg}, histStep{Op: "taggen", Arg: tg}, histStep{Op: "tagdiff", Arg: tg}, histStep{Op: "gen"}, histStep{Op: "diff"})
+	}
 	if i%2 == 0 {
 		// ... and, every other history, with an output as an earlier `gen -tags x` leaves it,
 		// regenerated and compared from the package's own directory
@@ -199,6 +205,7 @@ func CheckC18(e *Env) int {
 		var log []string
 		violated := false
 		staleReported := false
+		taggedWith := ""
 		fail := func(step int, clause, witness string) {
 			mu.Lock()
 			defer mu.Unlock()
@@ -332,7 +339,49 @@ func CheckC18(e *Env) int {
 				}
 				file = b
 				log = append(log, fmt.Sprintf("%d damage output (%s, %d bytes)", k, h.Arg, len(b)))
+			case "taggen", "tagdiff":
+				// the same option list for gen and for the diff right after it: whatever gen
+				// makes of the options, a second gen changes nothing and diff sees no difference
+				if !accepted || c18NoOutput[cur] {
+					continue
+				}
+				op := strings.TrimPrefix(h.Op, "tag")
+				res := e.Wire(root, nil, op, "-tags", h.Arg, "./...")
+				got, _ := os.ReadFile(out)
+				log = append(log, fmt.Sprintf("%d %s -tags %q exit=%d file=%d bytes", k, op, h.Arg, res.Exit, len(got)))
+				if res.TimedOut {
+					mu.Lock()
+					rep.Incon = append(rep.Incon, fmt.Sprintf("h%03d step %d: watchdog", i, k))
+					mu.Unlock()
+					return
+				}
+				if res.Crashed() {
+					fail(k, "crash", tail(res.Stderr, 1500))
+					return
+				}
+				if op == "gen" {
+					if res.Exit != 0 {
+						fail(k, "gen -tags failed on an accepted variant", res.Stderr)
+						return
+					}
+					if taggedWith == h.Arg && string(got) != string(file) {
+						fail(k, "a second gen with the same -tags changed the output", fmt.Sprintf("--- first\n%s\n--- second\n%s", file, got))
+						return
+					}
+					taggedWith = h.Arg
+					file = got
+				} else {
+					if string(got) != string(file) {
+						fail(k, "diff touched the output", res.Stderr)
+						return
+					}
+					if taggedWith == h.Arg && res.Exit != 0 {
+						fail(k, fmt.Sprintf("diff exit status %d right after a successful gen with the same -tags %q, want 0", res.Exit, h.Arg), res.Stdout+res.Stderr)
+						return
+					}
+				}
 			case "gen", "diff", "check":
+				taggedWith = ""
 				before := TakeSnapshot(root)
 				// the package is named by ./... from the module root, or (every third gen/diff/check
 				// step) by "." / by nothing from its own directory
